@@ -273,6 +273,10 @@ func runOp(in *instances, op OpSpec) (d string) {
 		}
 		n := []int{3, 10, 30, 90, 250, 600}[op.P%6]
 		txt := text(r, 1+r.intn(n), r.intn(4))
+		if r.intn(5) == 0 {
+			// Macro 05 / 06 envelopes (their own header / trailer handling in the encoder)
+			txt = "[)>\x1e0" + string(rune('5'+r.intn(2))) + "\x1d" + text(r, 1+r.intn(20), r.intn(3)) + "\x1e\x04"
+		}
 		scale := 1 + r.intn(3)
 		m, err := in.dmw.Encode(txt, gozxing.BarcodeFormat_DATA_MATRIX, 0, 0, nil)
 		if err != nil {
@@ -364,6 +368,36 @@ func runOp(in *instances, op OpSpec) (d string) {
 		bmp, _ := gozxing.NewBinaryBitmapFromImage(img)
 		res, err := in.az.Decode(bmp, nil)
 		return digestResult(res, err)
+	case "faint":
+		// a 1-D symbol printed with little contrast (grey bars on a grey
+		// background): usually "not found" - and it must be the same answer
+		// whatever other goroutines are scanning at the time
+		kinds := []string{"ean13", "code128", "code39", "itf", "upca"}
+		k := kinds[r.intn(len(kinds))]
+		w, rd, format, content := oneD(in, k, r)
+		m, err := w.Encode(content, format, 0, 1, nil)
+		if err != nil {
+			return "W " + digestMatrix(m, err)
+		}
+		bg := 90 + r.intn(120)
+		fg := bg - (6 + r.intn(40))
+		if r.intn(4) == 0 {
+			fg = r.intn(60)
+		}
+		scale := 1 + r.intn(3)
+		img := image.NewGray(image.Rect(0, 0, m.GetWidth()*scale, 24))
+		for y := 0; y < 24; y++ {
+			for x := 0; x < m.GetWidth()*scale; x++ {
+				v := bg
+				if m.Get(x/scale, 0) {
+					v = fg
+				}
+				img.Pix[y*img.Stride+x] = byte(v)
+			}
+		}
+		bmp, _ := gozxing.NewBinaryBitmapFromImage(img)
+		res, err := rd.Decode(bmp, nil)
+		return fmt.Sprintf("bg=%d fg=%d ", bg, fg) + digestResult(res, err)
 	case "eanext":
 		// a UPC/EAN symbol with a 2- or 5-digit add-on (the add-on decoder and its scratch buffers)
 		sym := []string{"ean13", "upca", "ean8"}[r.intn(3)]
